@@ -18,7 +18,8 @@ fn fnv(data: &[u8]) -> String {
 pub fn oligo_paths(seed: u64, groups: usize, dir: &str, maxn: usize) {
     let mut rng = Rng::new(seed);
     for g in 0..groups {
-        let n = rng.range(1, maxn as u64) as usize;
+        // every third group is large (hundreds of records in one batch / many rows per worker)
+        let n = if g % 3 == 1 { rng.range(250, 500) as usize } else { rng.range(1, maxn as u64) as usize };
         let k = 1 + (g % 4);
         let delim = ["", " ", ",", "\t", "::"][g % 5];
         // non-empty sequences (FASTQ cannot hold an empty one); ambiguous bytes allowed
